@@ -6,6 +6,9 @@ import Proofs.CallerGates
 import DeltaModel.CallerScan
 import DeltaModel.Generated.CallerDescribe
 import Proofs.CallerScan
+import DeltaModel.CallGraph
+import DeltaModel.Generated.CallerQueries
+import Proofs.CallGraph
 /-!
 C20 — calling-process detection gives the same answer under every thread schedule.
 
@@ -368,5 +371,92 @@ example : describe ["/".toList, "diff".toList] = .ok .otherProcess := by decide
 example : describe ["git".toList, "status".toList] = .ok .argError := by decide
 example : scan theShape ⟨[["sh".toList], [], ["git.exe".toList, "blame".toList, "x".toList]], some [], []⟩ =
     .ok (some (.git "GitBlame" ⟨[], [], some "x".toList⟩ none)) := by decide
+
+/-! ### No query before the publication: the call graph of the start-up phase
+
+`startup_publication_precedes_first_query` compares the ORDER of three kinds of statements of `run_app`;
+which calls "can query" was a hand-written list of the extractor (`Config::from`, `show_config`, `delta`).
+`Generated/CallerQueries.lean` is the call graph of the whole crate by name (every `fn`, every
+`lazy_static` initialiser, every macro; resolution rules and what they trust: header of
+`tools/extractors/callerqueries.py`), the query primitives (`utils::process::calling_process`, and the
+process-table scan `determine_calling_process` / `calling_process_cmdline` should the main thread ever run
+it), and the statements of `main` / `run_app` before and after the `set_calling_process(..)` call. The
+theorems below are about true reachability in that graph (`CallGraph.Reach`); the kernel evaluates a
+bit-set closure whose soundness is proved for every graph (`Proofs/CallGraph.lean`). -/
+
+open CallGraph in
+/-- The set the closure computes around everything the statements before the publication can call
+(and around the implicitly called trait methods) is closed under calls, contains those roots and
+contains no query primitive. (Evaluated by the kernel on the regenerated graph.) -/
+theorem pre_publication_closure_has_no_query :
+    separates G preRoots prims preClosure = true := by decide +kernel
+
+open CallGraph in
+/-- **No query before publication.** No function that can be reached — through any chain of calls by
+name, lazy_static initialisers and macros included — from a statement of `main` or `run_app` that runs
+before `set_calling_process(..)` (argument parsing, `Opt::from_args_and_git_config`, `set_options`, the
+`--version` / `--help` branches, …) is a query primitive, and none of them can reach one. So the first
+`calling_process()` of a `delta git …` / `delta rg …` run comes after the publication. -/
+theorem no_query_before_publication (f : Nat) (hf : Reach G preRoots f) :
+    f ∉ prims ∧ ∀ p ∈ prims, ¬ Reach G [f] p :=
+  separates_sound pre_publication_closure_has_no_query hf
+
+open CallGraph in
+/-- The start-up order of the main thread DERIVED from the call graph — a statement of `run_app` counts as
+"queries" iff something it calls reaches a query primitive — is the order of the model's main thread
+(thread start, publication, then queries): the hand-written list of query-capable calls in
+`tools/extractors/caller.py` misses nothing the graph sees. -/
+theorem startup_order_from_call_graph :
+    graphStartup = startupShape ∧ graphStartup = Generated.CallerShape.startupSubcommand := by
+  have h : graphStartup = startupShape := by decide +kernel
+  exact ⟨h, h.trans startup_publication_precedes_first_query.symm⟩
+
+open CallGraph in
+/-- **The first answer is cached after the publication.** (1) A lazy_static whose initialiser can query
+(`CACHED_IS_WORD_DIFF` behind `is_word_diff()`; its value is the answer of the FIRST query and stays for
+the life of the process) cannot be reached from any statement that precedes the publication, so its
+initialiser runs after it. (2) In the start-up program of subcommand mode (`cfg.known = some k`: main
+publishes first), under EVERY schedule, whatever mixture of direct `calling_process()` calls and accesses
+through the cache the main thread makes (`l`, cache empty at the start), every access — the one that fills
+the cache included — returns the published command `k`; in particular the cached value is `k`.
+`hk` is needed: without a publication the answers are the guess (`guess_otherwise`). -/
+theorem first_answer_is_cached_after_publication :
+    (∀ c ∈ Generated.CallerQueries.lazyStatics, (∃ p ∈ prims, Reach G [c] p) → ¬ Reach G preRoots c) ∧
+    ∀ (cfg : Cfg) (k : Nat), cfg.known = some k → ∀ (cs : List Choice) (s : State),
+      run cfg (init cfg) cs = some s → ∀ (l : List Access) (out : List Cell),
+        answers l s.results none = some out → ∀ a ∈ out, a = Cell.val k := by
+  refine ⟨?_, ?_⟩
+  · intro c _ ⟨p, hp, hr⟩ hpre
+    exact (no_query_before_publication c hpre).2 p hp hr
+  · intro cfg k hk cs s h l out ho
+    exact answers_all_eq (Cell.val k) l s.results none (known_wins cfg k hk cs s h)
+      (fun w hw => by cases hw) out ho
+
+open CallGraph Choice in
+/-- Variant (NOT what the code does): an access through the cache before the publication — what a test
+of `is_word_diff()` inside `set_options` amounts to. The first access waits for the background guess and
+caches it; after the publication a direct query returns the launched command but every access through
+the cache keeps returning the guess: `[cached, direct, cached]` answers `[guess, command, guess]`. -/
+theorem early_cached_query_goes_stale :
+    ∃ cs s, runLatePub cfgKnown (initLatePub cfgKnown) cs = some s ∧
+      answers [.cached, .direct, .cached] s.results none = some [Cell.val 1, Cell.val 2, Cell.val 1] :=
+  ⟨[main, main, main, bg, bg, bg, bg, bg, bg, main, main, main, main,
+    main, main, main, main, main, main, main, main, main], _, rfl, by decide⟩
+
+open CallGraph in
+/-- Non-vacuity: code that runs after the publication does query — `Config::from` (through
+`is_word_diff`), `delta::delta` — and at least one lazy_static is filled by a query. -/
+example : canReach G [idOf "config::Config::from"] prims = true ∧
+    canReach G [idOf "delta::delta"] prims = true ∧
+    canReach G [idOf "options::set::set_options"] prims = false ∧
+    (Generated.CallerQueries.lazyStatics.any fun c => canReach G [c] prims) = true := by decide +kernel
+open CallGraph in
+example : Reach [[1], [2, 3], [], [0]] [0] 3 := .call (i := 1) (.call (i := 0) (.root (by decide)) (by decide)) (by decide)
+open CallGraph in
+example : separates [[1], [2, 3], [], [0], [5], [0]] [0] [4, 5] (closure [[1], [2, 3], [], [0], [5], [0]] [0]) = true ∧
+    separates [[1], [2, 3], [], [0], [5], [3]] [4] [0] (closure [[1], [2, 3], [], [0], [5], [3]] [4]) = false := by decide
+open CallGraph in
+example : queriesMade [.cached, .direct, .cached] false = 2 ∧
+    answers [.cached, .cached, .direct] [Cell.val 7, Cell.val 7] none = some [Cell.val 7, Cell.val 7, Cell.val 7] := by decide
 
 end C20
